@@ -3,6 +3,7 @@ package cmd
 import (
 	"fmt"
 	"net/netip"
+	"reflect"
 
 	"github.com/AdguardTeam/golibs/timeutil"
 )
@@ -10,7 +11,17 @@ import (
 // validatePositive returns an error if v is not a positive number.  prop is the
 // name of the property being checked, used for error messages.
 func validatePositive[T numberOrDuration](prop string, v T) (err error) {
-	if d, ok := any(v).(timeutil.Duration); ok && d.Duration <= 0 {
+	if d, ok := any(v).(timeutil.Duration); ok {
+		if d.Duration <= 0 {
+			return newNotPositiveError(prop, v)
+		}
+
+		return nil
+	}
+
+	// T is an integer type here, possibly a named one, so use reflection.
+	rv := reflect.ValueOf(v)
+	if (rv.CanInt() && rv.Int() <= 0) || (rv.CanUint() && rv.Uint() == 0) {
 		return newNotPositiveError(prop, v)
 	}
 
